@@ -44,6 +44,7 @@ type FuncContract struct {
 	Loops       map[int][]Clause
 	CallAsserts map[string][]Clause // key "callee#k"
 	Crash       []Clause            // crash invariants: asserted after every durable write
+	Observe     []Clause            // named entry-state expressions reported in counterexample models
 	Line        int
 	Fresh       []string // result names declared freshly allocated
 }
@@ -77,7 +78,14 @@ type Axiom struct {
 	Line int
 }
 
+type UFDecl struct {
+	Name   string
+	Params []string
+	ResT   string
+}
+
 type Contracts struct {
+	UFs    map[string]*UFDecl
 	Funcs  map[string]*FuncContract
 	Specs  map[string]*SpecFunc
 	Models map[string]*Model
@@ -87,8 +95,8 @@ type Contracts struct {
 	Text   string
 }
 
-var headerKW = map[string]bool{"func": true, "interface": true, "extern": true, "model": true, "spec": true, "lemma": true, "axiom": true}
-var clauseKW = map[string]bool{"requires": true, "ensures": true, "modifies": true, "safe": true, "trusted": true, "loop": true, "at": true, "crash_invariant": true, "fresh": true}
+var headerKW = map[string]bool{"uf": true, "func": true, "interface": true, "extern": true, "model": true, "spec": true, "lemma": true, "axiom": true}
+var clauseKW = map[string]bool{"observe": true, "requires": true, "ensures": true, "modifies": true, "safe": true, "trusted": true, "loop": true, "at": true, "crash_invariant": true, "fresh": true}
 
 type rawItem struct {
 	line int
@@ -104,7 +112,7 @@ func parseContractsFile(path string) (*Contracts, error) {
 }
 
 func parseContracts(text string) (c *Contracts, err error) {
-	c = &Contracts{Funcs: map[string]*FuncContract{}, Specs: map[string]*SpecFunc{}, Models: map[string]*Model{}, Lemmas: map[string]*Lemma{}, Text: text}
+	c = &Contracts{UFs: map[string]*UFDecl{}, Funcs: map[string]*FuncContract{}, Specs: map[string]*SpecFunc{}, Models: map[string]*Model{}, Lemmas: map[string]*Lemma{}, Text: text}
 	defer func() {
 		if r := recover(); r != nil {
 			if pe, ok := r.(parseErr); ok {
@@ -158,6 +166,19 @@ func parseContracts(text string) (c *Contracts, err error) {
 			c.Funcs[fc.Key] = fc
 			c.Order = append(c.Order, fc.Key)
 			cur, curLemma = fc, nil
+		case "uf":
+			m := ufRe.FindStringSubmatch(rest)
+			if m == nil {
+				panic(parseErr(fmt.Sprintf("line %d: bad uf declaration", it.line)))
+			}
+			u := &UFDecl{Name: m[1], ResT: strings.TrimSpace(m[3])}
+			for _, p := range splitTop(m[2], ',') {
+				if strings.TrimSpace(p) != "" {
+					u.Params = append(u.Params, strings.TrimSpace(p))
+				}
+			}
+			c.UFs[u.Name] = u
+			cur, curLemma = nil, nil
 		case "model":
 			m := parseModel(rest, it.line)
 			c.Models[m.Iface] = m
@@ -226,6 +247,12 @@ func parseContracts(text string) (c *Contracts, err error) {
 			default:
 				cur.Crash = append(cur.Crash, cl)
 			}
+		case "observe":
+			lab, src := splitLabel(rest)
+			if cur == nil || lab == "" {
+				panic(parseErr(fmt.Sprintf("line %d: observe needs 'name: expr' inside a contract", it.line)))
+			}
+			cur.Observe = append(cur.Observe, Clause{Label: lab, Src: src, E: parseExpr(src, it.line), Line: it.line})
 		case "modifies":
 			if cur == nil {
 				panic(parseErr(fmt.Sprintf("line %d: modifies outside a contract", it.line)))
@@ -383,6 +410,7 @@ func parseParams(s string, line int) []QVar {
 	return out
 }
 
+var ufRe = regexp.MustCompile(`^(\w+)\s*\((.*)\)\s*(.+)$`)
 var specRe = regexp.MustCompile(`^func\s+(\w+)\s*\((.*?)\)\s*([^=]+?)\s*=\s*(.*)$`)
 
 func parseSpec(rest string, line int) *SpecFunc {
